@@ -150,7 +150,32 @@ def mk_lexer_obj(prev=None, cur=None, stack=None, lm=None):
     fields['cur_token'] = cur
     if stack is not None:
         fields['token_stack'] = stack
+    if fields.get('lexer') is None:
+        fields['lexer'] = Obj('PlyLexer', lineno=1, lexpos=0, lexdata='')
     return Obj('Lexer', **fields)
+
+
+def hand(lexer, token):
+    """what the pair (ply lexer, Lexer.get_lexer_token) leaves behind when
+    it hands out `token`: the token carries ply's current line, ply's line
+    counter has advanced over the line terminators in the token and its
+    offset stands behind the token.  Stand-ins for get_lexer_token go
+    through this so that code consulting the ply lexer sees a consistent
+    picture."""
+    if not lexer.has('lexer') or lexer.lexer is None:
+        lexer.lexer = Obj('PlyLexer', lineno=1, lexpos=0, lexdata='')
+    if token is None:
+        return None
+    ply = lexer.lexer
+    if not ply.has('lineno'):
+        ply.lineno = 1
+    import re as _re
+    n = len(_re.findall('\r\n|[\n\r\u2028\u2029]', token.value or ''))
+    if not n and token.type == 'LINE_TERMINATOR':
+        n = 1
+    token.lineno = ply.lineno
+    ply.lineno = ply.lineno + n
+    return token
 
 
 def tok(type_, value=None):
@@ -190,6 +215,7 @@ def r042(report, lm, pm, rid='R04.2'):
                                        else 'a')))
             feed_.append(token)
             for t_ in feed_:
+                hand(lexer, t_)
                 ev.call(methods['_set_tokens'], [t_], self_obj=lexer)
             try:
                 ret, _ = ev.call(methods['auto_semi'], [token],
@@ -276,9 +302,11 @@ def r043(report, g, lm):
                 # the state after ptype is reached through the lexer's
                 # own transition function
                 first = tok(ptype)
-                lexer.get_lexer_token = ('pyfunc', lambda first=first: first)
+                lexer.get_lexer_token = ('pyfunc', lambda first=first, lexer=lexer:
+                                         hand(lexer, first))
                 ev.call(methods['_get_update_token'], [], self_obj=lexer)
-                lexer.get_lexer_token = ('pyfunc', lambda new=new: new)
+                lexer.get_lexer_token = ('pyfunc', lambda new=new, lexer=lexer:
+                                         hand(lexer, new))
                 ret, _ = ev.call(methods['_get_update_token'], [],
                                  self_obj=lexer)
             except Raised:
@@ -322,9 +350,11 @@ def r043(report, g, lm):
             new = tok('LINE_TERMINATOR')
             try:
                 first = tok(ptype)
-                lexer.get_lexer_token = ('pyfunc', lambda first=first: first)
+                lexer.get_lexer_token = ('pyfunc', lambda first=first, lexer=lexer:
+                                         hand(lexer, first))
                 ev.call(methods['_get_update_token'], [], self_obj=lexer)
-                lexer.get_lexer_token = ('pyfunc', lambda new=new: new)
+                lexer.get_lexer_token = ('pyfunc', lambda new=new, lexer=lexer:
+                                         hand(lexer, new))
                 ret, _ = ev.call(methods['_get_update_token'], [],
                                  self_obj=lexer)
             except Raised as e:
@@ -362,13 +392,36 @@ def r043(report, g, lm):
     failing = {}
     for ptype in sorted(RESTRICTED_PREFIX) + ['ID', 'NUMBER', 'RBRACE']:
         for run in runs:
-            ev = Evaluator(lm.module, 'Lexer', methods, functions)
+            ev = Evaluator(lm.module, 'Lexer', methods, dict(
+                functions, zip=zip, iter=iter, len=len))
             lexer = mk_lexer_obj(lm=lm)
             autos = 0
+            # the raw tokens come from a ply stand-in over a laid-out
+            # text; get_lexer_token (column, line index, ply's line
+            # counter) is the lexer's own
+            seq = [(ptype, lm.fixed.get(ptype) or 'k')] + list(run) + [
+                ('ID', 'x')]
+            text = ''
+            raws = []
+            for t in seq:
+                raws.append(Obj('LexToken', type=t[0], value=t[1],
+                                lexpos=len(text), lineno=0))
+                text += t[1] + ('' if t[0] in (
+                    'LINE_TERMINATOR',) else ' ')
+            ply = Obj('PlyLexer', lineno=1, lexpos=0, lexdata=text)
+            queue = list(raws)
+
+            def next_raw(queue=queue, ply=ply):
+                if not queue:
+                    return None
+                t_ = queue.pop(0)
+                t_.lineno = ply.lineno
+                ply.lexpos = t_.lexpos + len(t_.value)
+                return t_
+            ply.token = ('pyfunc', next_raw)
+            lexer.lexer = ply
             try:
-                for t in [(ptype, None)] + list(run) + [('ID', 'x')]:
-                    new = tok(t[0], t[1])
-                    lexer.get_lexer_token = ('pyfunc', lambda new=new: new)
+                for t in seq:
                     ret, _ = ev.call(methods['_get_update_token'], [],
                                      self_obj=lexer)
                     if isinstance(ret, Obj) and ret.type == 'AUTOSEMI':
@@ -430,7 +483,8 @@ def r043(report, g, lm):
                 lexer.yield_comments = yc
                 lexer.lexer = Obj('PlyLexer', lexdata='ab', lexpos=0,
                                   begin=('pyfunc', lambda state: None))
-                lexer.get_lexer_token = ('pyfunc', lambda it=it: next(it))
+                lexer.get_lexer_token = ('pyfunc', lambda it=it, lexer=lexer:
+                                         hand(lexer, next(it)))
                 got = []
                 try:
                     for _ in range(8):
@@ -527,6 +581,7 @@ def r044(report, lm, maxrun=3):
             seq = [tok('ID', 'a')] + [tok(*kinds[k]) for k in run] + \
                 [tok('ID', 'b')]
             for t in seq:
+                hand(lexer, t)
                 ev.call(methods['_set_tokens'], [t], self_obj=lexer)
             got, _ = ev.call(methods['_is_prev_token_lt'], [],
                              self_obj=lexer)
